@@ -192,6 +192,7 @@ func (sb *seqbag) AppendSeqIdentifier(identifier string, right bool) {
 				seq.name = identifier + seq.name
 			}
 		}
+		sb.reindex()
 	}
 }
 
@@ -283,6 +284,19 @@ func (sb *seqbag) CleanNames(namemap map[string]string) {
 		seq.name = inside.ReplaceAllString(seq.name, "-")
 		if namemap != nil {
 			namemap[old] = seq.name
+		}
+	}
+	sb.reindex()
+}
+
+// reindex rebuilds the name index from the ordered sequences, after
+// sequence names have been changed in place (if two sequences end up with
+// the same name, the first one is kept in the index)
+func (sb *seqbag) reindex() {
+	sb.seqmap = make(map[string]*seq, len(sb.seqs))
+	for _, seq := range sb.seqs {
+		if _, ok := sb.seqmap[seq.name]; !ok {
+			sb.seqmap[seq.name] = seq
 		}
 	}
 }
@@ -808,6 +822,7 @@ func (sb *seqbag) Rename(namemap map[string]string) {
 		// 	io.PrintMessage("Sequence " + a.seqs[seq].name + " not present in the map file")
 		// }
 	}
+	sb.reindex()
 }
 
 // Shuffle the order of the sequences in the alignment
@@ -835,6 +850,7 @@ func (sb *seqbag) RenameRegexp(regex, replace string, namemap map[string]string)
 		namemap[sb.seqs[seq].name] = newname
 		sb.seqs[seq].name = newname
 	}
+	sb.reindex()
 	return nil
 }
 
@@ -1132,6 +1148,7 @@ func (sb *seqbag) TrimNamesAuto(namemap map[string]string, curid *int) (err erro
 		}
 		seq.name = newname
 	}
+	sb.reindex()
 	return
 }
 
